@@ -227,7 +227,16 @@ class Monitor(object):
                 for k, v in kwargs.items():
                     if kbefore[k][0] in ('nd', 'seq') and snapshot(v) != kbefore[k]:
                         mon.violations.append((qual, k, _how(kbefore[k], snapshot(v))))
-        wrapper.__name__ = getattr(fn, '__name__', 'wrapped')
+        try:
+            import functools
+            functools.update_wrapper(wrapper, getattr(fn, 'py_func', fn))      # __name__, __qualname__, __doc__, __module__, __dict__
+            for a_ in ('__defaults__', '__kwdefaults__'):
+                try:
+                    setattr(wrapper, a_, getattr(getattr(fn, 'py_func', fn), a_))
+                except Exception:
+                    pass
+        except Exception:
+            wrapper.__name__ = getattr(fn, '__name__', 'wrapped')
         wrapper.__wrapped__ = fn
         wrapper._kneesim = True
         return wrapper
@@ -301,6 +310,9 @@ def enc(v, depth=0):
     patterns (all NaNs equal), arrays as shape + bits, containers recursively."""
     if v is None:
         return ('none',)
+    import enum as _enum
+    if isinstance(v, _enum.Enum):
+        return ('enum', type(v).__name__, v.name)
     if isinstance(v, (bool, np.bool_)):
         return ('s', _fb(1.0 if v else 0.0))
     if isinstance(v, (int, float, np.integer, np.floating)):
@@ -322,7 +334,38 @@ def enc(v, depth=0):
         return ('t', tuple(enc(x, depth + 1) for x in v))
     if isinstance(v, dict) and depth < 5:
         return ('d', tuple((str(k), enc(v[k], depth + 1)) for k in sorted(v, key=str)))
+    if callable(v) and not isinstance(v, type):
+        f = v
+        for _ in range(5):
+            f = getattr(f, '__wrapped__', f)
+        f = getattr(f, 'py_func', f)
+        return ('fn', '%s.%s' % (getattr(f, '__module__', '?'), getattr(f, '__qualname__', getattr(f, '__name__', '?'))))
+    fields = object_fields(v)
+    if fields is not None and depth < 5:
+        return ('obj', type(v).__name__, tuple((k, enc(fields[k], depth + 1)) for k in sorted(fields)))
+    if isinstance(v, (set, frozenset)) and depth < 5:
+        return ('set', tuple(sorted((enc(x, depth + 1) for x in v), key=repr)))
     return ('repr', type(v).__name__ + ':' + _ADDR.sub('0x', repr(v))[:300])
+
+
+def object_fields(v):
+    """Field dict of a plain result object (dataclass, namedtuple-like, object with __dict__ / __slots__), else None."""
+    import dataclasses
+    import enum
+    if isinstance(v, (enum.Enum, type, types.ModuleType, types.FunctionType, types.BuiltinFunctionType)) or v is None:
+        return None
+    if isinstance(v, (str, bytes, int, float, complex, bool, np.generic, np.ndarray, list, tuple, dict, set, frozenset)):
+        return None
+    try:
+        if dataclasses.is_dataclass(v):
+            return {f.name: getattr(v, f.name) for f in dataclasses.fields(v)}
+        if hasattr(v, '__dict__') and isinstance(v.__dict__, dict):
+            return dict(v.__dict__)
+        if hasattr(v, '__slots__'):
+            return {k: getattr(v, k) for k in v.__slots__ if hasattr(v, k)}
+    except Exception:
+        return None
+    return None
 
 
 def kind_of(v):
@@ -412,12 +455,62 @@ class SkewedTime(types.ModuleType):
         import time as _t
         return _t.monotonic_ns() + int(self._off() * 1e9)
 
+    def perf_counter_ns(self):
+        import time as _t
+        return _t.perf_counter_ns() + int(self._off() * 1e9)
+
+    def process_time(self):
+        import time as _t
+        return _t.process_time() + self._off()
+
+    def localtime(self, secs=None):
+        import time as _t
+        return _t.localtime(self.time() if secs is None else secs)
+
+    def gmtime(self, secs=None):
+        import time as _t
+        return _t.gmtime(self.time() if secs is None else secs)
+
+
+def _skewed_datetime_module(clock):
+    """A stand-in for the `datetime` module whose datetime.now() / utcnow() / today() and date.today() follow
+    the skewed clock."""
+    import datetime as _dt
+
+    class datetime(_dt.datetime):
+        @classmethod
+        def now(cls, tz=None):
+            return _dt.datetime.now(tz) + _dt.timedelta(seconds=clock._off())
+
+        @classmethod
+        def utcnow(cls):
+            return _dt.datetime.utcnow() + _dt.timedelta(seconds=clock._off())
+
+        @classmethod
+        def today(cls):
+            return _dt.datetime.today() + _dt.timedelta(seconds=clock._off())
+
+    class date(_dt.date):
+        @classmethod
+        def today(cls):
+            return (_dt.datetime.today() + _dt.timedelta(seconds=clock._off())).date()
+
+    m = types.ModuleType('datetime')
+    for k in dir(_dt):
+        if not k.startswith('__'):
+            setattr(m, k, getattr(_dt, k))
+    m.datetime = datetime
+    m.date = date
+    return m, datetime, date
+
 
 def install_clock():
     """Rebind `time` (module) and directly imported time functions in package modules to the skewed clock.
     Returns the clock, or None if no package module uses the time module (the pinned tree: none does)."""
+    import datetime as _dtmod
     import time as _t
     clock = SkewedTime()
+    dt_proxy = _skewed_datetime_module(clock)
     used = False
     jit_mods, _ = dispatcher_names()
     for mod in package_modules():
@@ -427,8 +520,18 @@ def install_clock():
             if obj is _t:
                 setattr(mod, name, clock)
                 used = True
-            elif any(obj is f_ for f_ in (_t.time, _t.monotonic, _t.perf_counter)):      # identity: globals may be arrays
+            elif any(obj is f_ for f_ in (_t.time, _t.monotonic, _t.perf_counter, _t.process_time, _t.time_ns, _t.monotonic_ns,
+                                          _t.perf_counter_ns, _t.localtime, _t.gmtime)):      # identity: globals may be arrays
                 setattr(mod, name, getattr(clock, obj.__name__))
+                used = True
+            elif obj is _dtmod:
+                setattr(mod, name, dt_proxy[0])
+                used = True
+            elif obj is _dtmod.datetime:
+                setattr(mod, name, dt_proxy[1])
+                used = True
+            elif obj is _dtmod.date:
+                setattr(mod, name, dt_proxy[2])
                 used = True
     return clock if used else None
 
